@@ -1,6 +1,7 @@
 import KM.Props.C14Go
 import KM.Gen.GoVip
 import KM.Gen.GoBoot
+import KM.Gen.GoWebauthn
 /-! # C05 — when `validateUserTOTP` says yes, on the TRANSLATED source (go2lean); see `KM/Props/C14Go.lean` -/
 namespace KM.Totp
 open KM.Go KM.GoTypes
@@ -358,3 +359,55 @@ theorem c05_go_totp_upgrade (ext : TotpAuthExt) (user : Str) (level : Nat) (otp 
   · simp
 
 end KM.Totp
+
+/-! ## `webauthnAuthFinish` from the verification decision to the response (`KM/Gen/GoWebauthn.lean`, block with a join
+point; `go state.SaveUserProfile(…)` is recorded as an effect where the goroutine is started) -/
+namespace KM.WebauthnGo
+open KM.GoTypes KM.Go
+
+/-- the verification that must have succeeded, and the level it earns -/
+def Verified (ext : WaExt) (credentialFound : Bool) (authType lvl : Nat) : Prop :=
+  (credentialFound = false ∧ ext.validateLogin.2 = none ∧ lvl = ((authType ||| 2048) ||| 8)) ∨
+  (credentialFound = true ∧ ext.verifyLocal = none ∧ lvl = ((authType ||| 8) ||| 8))
+
+/-- **the cookie is raised only for the user who proved the factor, only after a verification succeeded, and only once
+per pending challenge** (C05, C16), on the translated source of `webauthnAuthFinish` (from the verification decision to
+the response): the upgrade is reached only for `authData.Username`; only after the library's `ValidateLogin` (no local
+credential matched) or the unrolled `parsedResponse.Verify` with the matched credential's key returned no error — the
+level gained is FIDO2+U2F in the first case, U2F in the second, on top of what the session had —; and only when
+`consumeLoginChallenge` found the pending challenge still there (it is consumed before the upgrade). -/
+theorem c05_go_webauthn_upgrade (ext : WaExt) (user : List Char) (authType : Nat)
+    (credentialFound fromCache isXHR : Bool) (u : List Char) (lvl : Nat)
+    (h : WaEffect.upgrade u lvl ∈
+      (KM.Gen.GoWebauthn.webauthnFinishCore ext user authType credentialFound fromCache isXHR).2) :
+    u = user ∧ Verified ext credentialFound authType lvl ∧ ext.consumeResult user = true ∧
+    WaEffect.consume user ∈
+      (KM.Gen.GoWebauthn.webauthnFinishCore ext user authType credentialFound fromCache isXHR).2 := by
+  obtain ⟨⟨vl, vle⟩, vloc, uv, ⟨reg, rok⟩, nc, cr, ur⟩ := ext
+  unfold KM.Gen.GoWebauthn.webauthnFinishCore at h ⊢
+  unfold Verified
+  dsimp only at h ⊢
+  by_cases hc0 : cr user = false
+  · cases credentialFound <;> cases vle <;> cases vloc <;> cases rok <;> cases fromCache <;> simp [hc0] at h
+  · have hc : cr user = true := by cases h' : cr user <;> simp_all
+    cases credentialFound <;> cases vle <;> cases vloc <;> cases rok <;> cases fromCache <;> cases isXHR <;>
+      simp [hc] at h ⊢ <;> (try split at h) <;> simp_all
+
+/-- a profile that came from the offline cache is never written back: the save is started only when `fromCache` is
+false (and only for the authenticated user) -/
+theorem c05_go_webauthn_save_not_from_cache (ext : WaExt) (user : List Char) (authType : Nat)
+    (credentialFound fromCache isXHR : Bool) (u : List Char)
+    (h : WaEffect.saveProfile u ∈
+      (KM.Gen.GoWebauthn.webauthnFinishCore ext user authType credentialFound fromCache isXHR).2) :
+    u = user ∧ fromCache = false ∧ credentialFound = true ∧ ext.verifyLocal = none := by
+  obtain ⟨⟨vl, vle⟩, vloc, uv, ⟨reg, rok⟩, nc, cr, ur⟩ := ext
+  unfold KM.Gen.GoWebauthn.webauthnFinishCore at h
+  dsimp only at h
+  by_cases hc0 : cr user = false
+  · cases credentialFound <;> cases vle <;> cases vloc <;> cases rok <;> cases fromCache <;> simp [hc0] at h ⊢ <;>
+      simp_all
+  · have hc : cr user = true := by cases h' : cr user <;> simp_all
+    cases credentialFound <;> cases vle <;> cases vloc <;> cases rok <;> cases fromCache <;> cases isXHR <;>
+      simp [hc] at h ⊢ <;> (try split at h) <;> simp_all
+
+end KM.WebauthnGo
